@@ -81,6 +81,9 @@ pub struct SeededScheduler {
     replay_pos: usize,
     rr_last: usize,
     record: bool,
+    /// sleeping tasks: task id -> (other task id -> steps it still has to run before the sleeper wakes)
+    sleepers: std::collections::BTreeMap<usize, std::collections::BTreeMap<usize, u32>>,
+    last_sleep_count: u64,
 }
 
 impl SeededScheduler {
@@ -104,6 +107,8 @@ impl SeededScheduler {
             replay_pos: 0,
             rr_last: 0,
             record: true,
+            sleepers: Default::default(),
+            last_sleep_count: 0,
         }
     }
 
@@ -162,6 +167,26 @@ impl Scheduler for SeededScheduler {
             }
         });
 
+        // simulated sleep: `verif_sim::thread::sleep` yields after bumping the sleep counter. The
+        // sleeper is not eligible until every task that was runnable at that moment has run
+        // SLEEP_QUANTUM steps (or stopped being runnable): "100 ms later" means "after everybody
+        // else made progress", otherwise lock retry loops time out under priority schedulers.
+        const SLEEP_QUANTUM: u32 = 8;
+        let sc = tantivy::verif_sim::with_knobs(|k| k.sleep_count);
+        if sc != self.last_sleep_count {
+            self.last_sleep_count = sc;
+            if let (Some(c), true) = (cur, is_yielding) {
+                let others = ids.iter().filter(|i| **i != c).map(|i| (*i, SLEEP_QUANTUM)).collect();
+                self.sleepers.insert(c, others);
+            }
+        }
+        if !self.sleepers.is_empty() {
+            for pending in self.sleepers.values_mut() {
+                pending.retain(|t, n| *n > 0 && ids.contains(t));
+            }
+            self.sleepers.retain(|_, pending| !pending.is_empty());
+        }
+        let asleep: Vec<usize> = self.sleepers.keys().cloned().filter(|t| ids.contains(t)).collect();
         // quiescence: main task (0) only when alone
         let quiescing = QUIESCING.with(|q| q.get());
         let mut cand: Vec<usize> = ids.clone();
@@ -173,6 +198,12 @@ impl Scheduler for SeededScheduler {
             cand.retain(|i| *i != 0);
             if cand.is_empty() {
                 cand = ids.clone();
+            }
+        }
+        if !asleep.is_empty() {
+            let awake: Vec<usize> = cand.iter().cloned().filter(|i| !asleep.contains(i)).collect();
+            if !awake.is_empty() {
+                cand = awake;
             }
         }
         let calm = CALM.with(|c| c.get()) || quiescing;
@@ -323,6 +354,12 @@ impl Scheduler for SeededScheduler {
                 }
             });
         }
+        for pending in self.sleepers.values_mut() {
+            if let Some(n) = pending.get_mut(&choice) {
+                *n = n.saturating_sub(1);
+            }
+        }
+        self.sleepers.remove(&choice);
         self.rr_last = choice;
         Some(TaskId::from(choice))
     }
